@@ -63,7 +63,9 @@ theorem Fit_call (sy : Bool) (fx : Fixes) (cap : Nat) (f : Plan) (s : St) (c : C
           · simpa [Fit, wOk] using h
         · split
           · simpa [Fit, wOk, bombed, newFiles] using h
-          · simpa [Fit, wOk] using h
+          · split
+            · simpa [Fit, wOk, newFiles] using h
+            · simpa [Fit, wOk] using h
   | commit =>
     simp only [call]
     cases hs : s.writer with
@@ -185,7 +187,8 @@ theorem call_panic {sy : Bool} {fx : Fixes} {cap : Nat} {f : Plan} {s : St} {c :
     · split at hh <;> try cases hh
       split at hh
       · split at hh <;> cases hh
-      · split at hh <;> cases hh
+      · split at hh <;> try cases hh
+        split at hh <;> cases hh
   | newWriter =>
     simp only [call] at hh
     cases hs : s.writer <;> simp only [hs] at hh
